@@ -182,11 +182,16 @@ def build_cases(tier):
     add(boundary=("truncate_both", "mirror_both"), ptypes=("absolute", "absolute"), bounds=("both", "both"), two_samplers=True)
     add(boundary=("none",) * 4, ptypes=("absolute",) * 4, bounds=("both",) * 4, sampler_map=(-1, 1, 0, 1))     # unassigned variable first
     add(boundary=("truncate_both",) * 3, ptypes=("absolute",) * 3, bounds=("both",) * 3, sampler_map=(1, -1, 0))
+    add(boundary=("none", "truncate_both", "mirror_both"), ptypes=("absolute",) * 3, bounds=("both",) * 3, sampler_map=(0, 2, 2))   # a configured sampler nothing refers to
+    add(boundary=("none",) * 2, ptypes=("absolute",) * 2, bounds=("both",) * 2, sampler_map=(2, 2))
     # with a variable scaler (differential harness of C11): relative/absolute magnitudes in user units
     from .c11 import TransformCase
     for pt, bd in ((("relative", "absolute"), ("truncate_both", "none")), (("absolute", "relative"), ("mirror_both", "truncate_both"))):
         k += 1
         cases.append(TransformCase(f"c10-{k:03d}", N=2, L=0, C=0, ptypes=pt, boundary=bd, obj_scaler=False, con_scaler=False))
+    k += 1   # one scale broadcast over all variables, no offsets
+    cases.append(TransformCase(f"c10-{k:03d}", N=2, L=0, C=0, ptypes=("absolute", "relative"), boundary=("none", "truncate_both"),
+                               obj_scaler=False, con_scaler=False, offsets=False, scale_form="size1"))
     if tier == "thorough":
         for combo in itertools.product(btypes, repeat=2):
             add(boundary=combo, ptypes=("relative", "absolute"), bounds=("both", "both"), P=2)
